@@ -230,6 +230,22 @@ func RunCase(c *Case, prop string, judgeHandOver bool) *Result {
 				res.class("scale-change")
 			}
 		}
+		// a shard that runs another configuration (file mode, one setting differs) is never in sync: no scale
+		// request may cut it off (C07) and it gets no target update (C08)
+		if d := c.Drift; d != nil && c.FileMode && d.Shard < rec.N {
+			res.class("drifted-shard-present/" + d.Kind)
+			for _, s := range rec.Scales {
+				if int32(rec.N) <= c.Max && int(s) < d.Shard+1 {
+					res.add("C07/loop/scale-below-out-of-sync-shard/"+d.Kind, "cycle %d: shard %d of %d runs a configuration that differs from the coordinator's in its %s and refuses pushes, yet scale %d was requested (requests of the cycle: %v)", len(w.Cycles), d.Shard, rec.N, d.Kind, s, rec.Scales)
+				}
+				if int(s) < rec.N {
+					res.class("scale-down-requested-with-drifted-shard")
+				}
+			}
+			if len(rec.Posts[d.Shard]) > 0 {
+				res.add("C08/loop/update-sent-to-out-of-sync-shard/"+d.Kind, "cycle %d: shard %d runs a configuration that differs in its %s, yet it was sent target updates %v", len(w.Cycles), d.Shard, d.Kind, rec.Posts[d.Shard])
+			}
+		}
 		// C03 clause: all in sync and an eligible target left unscraped => scale-up requested
 		if rec.AllInSync && len(rec.Scales) > 0 {
 			w.mu.Lock()
